@@ -68,6 +68,10 @@ func (d *DBFT[H]) checkPreCommit() {
 	}
 
 	d.preBlock = d.CreatePreBlock()
+	if d.preBlock == nil {
+		d.Logger.Debug("can't process PreBlock: no PreBlock can be constructed", zap.Int("count", count))
+		return
+	}
 
 	if !d.preBlockProcessed {
 		d.Logger.Info("processing PreBlock",
@@ -125,6 +129,10 @@ func (d *DBFT[H]) checkCommit() {
 	}
 
 	d.block = d.CreateBlock()
+	if d.block == nil {
+		d.Logger.Debug("can't approve block: no block can be constructed", zap.Int("count", count))
+		return
+	}
 	hash := d.block.Hash()
 
 	d.Logger.Info("approving block",
